@@ -357,6 +357,33 @@ func gen(c *ex.Ctx) {
 		emitArms(&sb, "C0Arm", "c0Table", dispatchArms(c, f, "c0", "r", false), "Arms of `switch r` in c0() (label = the rune).")
 	}
 
+	// ---- sgr(): the case labels of `switch params[i][0]`
+	if f := c.Parse("widgets/term/sgr.go"); f != nil {
+		var labels []int
+		if fd := ex.FindFunc(f, "Model", "sgr"); fd != nil {
+			if sw := findSwitch(fd, "params[i][0]", c); sw != nil {
+				for _, s := range sw.Body.List {
+					cc := s.(*ast.CaseClause)
+					if cc.List == nil {
+						c.Fail("%s: default arm in sgr()", c.Pos(cc))
+					}
+					for _, l := range cc.List {
+						if v, ok := intLit(l); ok {
+							labels = append(labels, v)
+						} else {
+							c.Fail("%s: sgr case label is not an integer literal", c.Pos(l))
+						}
+					}
+				}
+			} else {
+				c.Fail("sgr.go: `switch params[i][0]` not found")
+			}
+		} else {
+			c.Fail("sgr.go: sgr not found")
+		}
+		fmt.Fprintf(&sb, "\n/-- Case labels of `switch params[i][0]` in sgr(), in source order. -/\ndef sgrCases : List Int := %s\n", leanNatList(labels))
+	}
+
 	// ---- attribute bits (style.go)
 	if f := c.Parse("style.go"); f != nil {
 		type kv struct {
